@@ -377,7 +377,7 @@ def random_sets(n, seed):
                 rels = rng.sample(["r", "s", "x", "y", "R", "S"], rng.randint(0, 3))
                 decls.append({"kind": kind, "name": name, "rels": rels})
             conds = rng.sample(["c", "d", "e", "C"], rng.choice([0, 0, 1, 1, 2]))
-            files.append({"name": rng.choice(["", "", "", "./", "mods//", "x/../"]) + "f%d.fga" % (i + 1), "header": header, "decls": decls, "conds": conds, "loose": rng.random() < 0.4, "eol": "\r\n" if rng.random() < 0.3 else "\n", "pad": rng.random() < 0.15, "cont": rng.random() < 0.15, "lure": rng.random() < 0.15, "brace": rng.random() < 0.2})
+            files.append({"name": rng.choice(["", "", "", "./", "mods//", "x/../"]) + "f%d.fga" % (i + 1), "header": header, "decls": decls, "conds": conds, "loose": rng.random() < 0.4, "eol": "\r\n" if rng.random() < 0.3 else "\n", "pad": rng.random() < 0.15, "cont": rng.random() < 0.15, "lure": rng.random() < 0.15, "brace": rng.random() < 0.2, "crc": rng.random() < 0.15})
         # make most sets plausible: the first file declares the popular types
         if rng.random() < 0.7:
             files[0] = {"name": "f1.fga", "header": "m1", "decls": [{"kind": "type", "name": "t", "rels": rng.sample(["r"], rng.randint(0, 1))},
